@@ -67,3 +67,88 @@ Definition xsd_string : str :=
 Definition rdflib_default_graph : str :=
   (* "urn:x-rdflib:default" *)
   [117;114;110;58;120;45;114;100;102;108;105;98;58;100;101;102;97;117;108;116].
+
+(* ---- what rdflib's Literal constructor does with a lexical form and a language tag (rdflib/term.py, Literal.__new__;
+        the specification is compared with the real rdflib on every run that uses it) ---- *)
+Definition xsd_token : str :=
+  (* "http://www.w3.org/2001/XMLSchema#token" *)
+  [104;116;116;112;58;47;47;119;119;119;46;119;51;46;111;114;103;47;50;48;48;49;47;
+   88;77;76;83;99;104;101;109;97;35;116;111;107;101;110].
+Definition xsd_normalized_string : str :=
+  (* "http://www.w3.org/2001/XMLSchema#normalizedString" *)
+  [104;116;116;112;58;47;47;119;119;119;46;119;51;46;111;114;103;47;50;48;48;49;47;
+   88;77;76;83;99;104;101;109;97;35;110;111;114;109;97;108;105;122;101;100;83;116;114;105;110;103].
+
+(* _normalise_XSD_STRING: .replace("\t", " ").replace("\n", " ").replace("\r", " ") *)
+Definition ws_replace (lex : str) : str :=
+  map (fun c => if (c =? 9) || (c =? 10) || (c =? 13) then 32 else c) lex.
+
+(* str.strip(): the characters with str.isspace(), in UTF-8.  Length in bytes of such a character at the head of s (0: none):
+   U+0009..000D, U+001C..001F, U+0020 | U+0085, U+00A0 | U+1680, U+2000..200A, U+2028, U+2029, U+202F, U+205F, U+3000 *)
+Definition ws1 (c : N) : bool := ((9 <=? c) && (c <=? 13)) || ((28 <=? c) && (c <=? 32)).
+Definition ws2 (c d : N) : bool := (c =? 194) && ((d =? 133) || (d =? 160)).
+Definition ws3 (c d e : N) : bool :=
+  ((c =? 225) && (d =? 154) && (e =? 128)) ||
+  ((c =? 226) && (d =? 128) && (((128 <=? e) && (e <=? 138)) || (e =? 168) || (e =? 169) || (e =? 175))) ||
+  ((c =? 226) && (d =? 129) && (e =? 159)) ||
+  ((c =? 227) && (d =? 128) && (e =? 128)).
+Definition ws_head (s : str) : nat :=
+  match s with
+  | c :: r =>
+    if ws1 c then 1%nat else
+    match r with
+    | d :: r2 => if ws2 c d then 2%nat else match r2 with e :: _ => if ws3 c d e then 3%nat else 0%nat | [] => 0%nat end
+    | [] => 0%nat
+    end
+  | [] => 0%nat
+  end.
+(* the same at the END of a string, given reversed (valid UTF-8: a lead byte is never a continuation byte) *)
+Definition ws_last (rs : str) : nat :=
+  match rs with
+  | c :: r =>
+    if ws1 c then 1%nat else
+    match r with
+    | d :: r2 => if ws2 d c then 2%nat else match r2 with e :: _ => if ws3 e d c then 3%nat else 0%nat | [] => 0%nat end
+    | [] => 0%nat
+    end
+  | [] => 0%nat
+  end.
+Fixpoint strip_by (f : str -> nat) (fuel : nat) (s : str) : str :=
+  match fuel with
+  | O => s
+  | S fuel' => match f s with O => s | n => strip_by f fuel' (skipn n s) end
+  end.
+Definition py_strip (s : str) : str :=
+  let l := strip_by ws_head (length s) s in
+  rev (strip_by ws_last (length l) (rev l)).
+
+(* re.sub(" +", " ", s) *)
+Fixpoint collapse_spaces (s : str) : str :=
+  match s with
+  | c :: r => if (c =? 32) && match r with d :: _ => d =? 32 | [] => false end then collapse_spaces r else c :: collapse_spaces r
+  | [] => []
+  end.
+
+(* the lexical form an rdflib Literal of datatype dt holds when built from lex *)
+Definition rdflib_lex (dt : option str) (lex : str) : str :=
+  match dt with
+  | Some d =>
+    if str_eqb d xsd_token then collapse_spaces (py_strip (ws_replace lex))
+    else if str_eqb d xsd_normalized_string then ws_replace lex
+    else lex
+  | None => lex
+  end.
+
+(* _is_valid_langtag: re.match("^[a-zA-Z]+(?:-[a-zA-Z0-9]+)*$", tag)  ($ also matches before one final newline) *)
+Definition is_alpha (c : N) : bool := ((65 <=? c) && (c <=? 90)) || ((97 <=? c) && (c <=? 122)).
+Definition is_alnum (c : N) : bool := is_alpha c || ((48 <=? c) && (c <=? 57)).
+(* seg: in a segment that already has a character; first: the segment is the first one (letters only) *)
+Fixpoint langtag_from (first seg : bool) (s : str) : bool :=
+  match s with
+  | [] => seg
+  | c :: r =>
+    if (if first then is_alpha c else is_alnum c) then langtag_from first true r
+    else if (c =? 45) && seg then langtag_from false false r
+    else (c =? 10) && seg && match r with [] => true | _ => false end
+  end.
+Definition valid_langtag (t : str) : bool := langtag_from true false t.
